@@ -169,8 +169,10 @@ Lemma enter_prevote_backed height round s s' o :
 Proof.
   intros Hh P Eq. unfold enter_prevote in Eq.
   destruct (_ || _); [injection Eq as <- <-; exact P|].
-  unfold seq in Eq. rewrite do_prevote_eq, Hh in Eq. unfold modify in Eq. injection Eq as <- <-.
-  eapply backed_bquiet; [|exact P]. bq.
+  unfold seq in Eq. rewrite do_prevote_eq in Eq. autorewrite with cs in Eq. rewrite Hh in Eq. unfold modify in Eq. injection Eq as <- <-.
+  destruct P as [PL PV]. destruct (unlock_known_lock round s) as (U1 & U2 & U3).
+  unfold Backed. cs. rewrite U1, U3. split; [|exact PV].
+  destruct (unlock_fires round s); [apply backed_none | exact PL].
 Qed.
 
 Lemma enter_propose_backed height round s s' o :
